@@ -354,6 +354,8 @@ def handleStress (kv : List (String × String)) (impl : String) : String × Stri
 
 def handle : Handler := fun input impl =>
   let kv := parseKV input
+  -- a call that never returned (the harness gave up waiting: a lock that is not released, a lost wake-up)
+  if impl == "HANG" || impl.endsWith ":HANG" then ("-", "fail:hang:a Next/Left/Start call did not return (deadlock)") else
   match getS kv "mode" "seq" with
   | "seq" => handleSeq kv impl
   | "conc" => handleConc kv impl
